@@ -983,12 +983,15 @@ func (ego *list) ForEachAsync(function func(int, any)) List {
 	var wg sync.WaitGroup
 	step := func(group *sync.WaitGroup, i int, x any) {
 		function(i, x)
+		verifPoint("list.ForEachAsync.done")
 		group.Done()
 	}
 	wg.Add(ego.Ego().Count())
 	for i, item := range ego.val {
+		verifPoint("list.ForEachAsync.launch")
 		go step(&wg, i, item.getVal())
 	}
+	verifPoint("list.ForEachAsync.wait")
 	wg.Wait()
 	return ego.Ego()
 }
@@ -1002,11 +1005,14 @@ func (ego *list) MapAsync(function func(int, any) any) List {
 		mutex.Lock()
 		result.Replace(i, function(i, x))
 		mutex.Unlock()
+		verifPoint("list.MapAsync.done")
 		group.Done()
 	}
 	for i, item := range ego.val {
+		verifPoint("list.MapAsync.launch")
 		go step(&wg, i, item.getVal())
 	}
+	verifPoint("list.MapAsync.wait")
 	wg.Wait()
 	return result
 }
